@@ -3,6 +3,7 @@ import ScrutModel.Lemmas.RegexWrap
 import ScrutModel.Lemmas.WildLoop
 import ScrutModel.Lemmas.GlobCramEq
 import ScrutModel.Lemmas.RegexCleanup
+import ScrutModel.Lemmas.RegexQuantifier
 /-!
 # C04 — Each expectation kind matches exactly the lines the documentation says
 
@@ -26,8 +27,11 @@ Hypotheses, all explicit:
 * regex: the regex crate's syntax/engine is not modelled; in the whole-line theorems `e` ranges over
   the AST `RE`. The three Cram-compat clean-up passes of `RegexRule::make` are modelled on the
   expression *text* (`Model/RegexCleanup.lean`, `regexClean`): `C04_cleanup_identity` says which
-  expressions reach the compiler exactly as written; for the others the passes can change the
-  meaning of a valid regex (open findings, `C04_cleanup_*_witness`).
+  expressions reach the compiler exactly as written; `C04_cleanup_keeps_quantifiers` and
+  `C04_cleanup_escapes_other_braces` say, for all inputs, what happens at a `{`: a valid repetition
+  quantifier is kept, every other brace pair is escaped (`C04_cleanup_braces_all` for any number of
+  them in one expression); for the others the passes can change the meaning of a valid regex (open
+  findings, `C04_cleanup_*_witness`).
 -/
 namespace Scrut.Props.C04
 open Scrut.Glob Scrut.Regex Scrut.RegexCleanup
@@ -171,6 +175,69 @@ theorem C04_cleanup_quantifier_witness :
     regexClean ['a', '{', 'b', '}'] = ['a', '\\', '{', 'b', '\\', '}'] := by
   refine ⟨?_, ?_, ?_, ?_, ?_⟩ <;> decide
 
+/-! ### braces, for all inputs
+
+`simple c`: `c` is none of `\ { } [ ] <` (so `>` and the line feed are simple).
+`quantTail t`: `t` is empty or a comma followed by digits only (possibly none: the open-ended `{n,}`).
+`quantBody q`: `q` is a non-empty run of digits followed by a `quantTail` (`C04_quantBody_iff`). -/
+
+/-- **valid repetition quantifiers survive the clean-up unchanged**: `{n}`, `{n,m}` and `{n,}`
+(`d1` the non-empty first number, `tail` nothing or `,` and a possibly empty second number) after any
+simple text `pre` are copied as written; what follows the closing brace is arbitrary and is cleaned
+on its own, so the statement applies again to the next quantifier in `rest`. -/
+theorem C04_cleanup_keeps_quantifiers (pre d1 tail rest : List Char) (hpre : pre.all simple = true)
+    (h1 : d1 ≠ []) (hd : d1.all isDigit = true) (ht : quantTail tail = true) :
+    regexClean (pre ++ '{' :: d1 ++ tail ++ '}' :: rest) =
+      pre ++ '{' :: d1 ++ tail ++ '}' :: regexClean rest :=
+  regexClean_quantifier pre d1 tail rest hpre h1 hd ht
+
+/-- in simple context the whole expression reaches the compiler exactly as written -/
+theorem C04_cleanup_keeps_quantifiers_simple_context (pre d1 tail suf : List Char)
+    (hpre : pre.all simple = true) (h1 : d1 ≠ []) (hd : d1.all isDigit = true)
+    (ht : quantTail tail = true) (hsuf : suf.all simple = true) :
+    regexClean (pre ++ '{' :: d1 ++ tail ++ '}' :: suf) = pre ++ '{' :: d1 ++ tail ++ '}' :: suf :=
+  regexClean_quantifier_simple pre d1 tail suf hpre h1 hd ht hsuf
+
+/-- **braces that are not a quantifier get escaped**: a brace pair around simple text `b` that is not
+a quantifier body, after simple text `pre`, gets a backslash in front of both braces; `rest` is
+arbitrary and is cleaned on its own. -/
+theorem C04_cleanup_escapes_other_braces (pre b rest : List Char) (hpre : pre.all simple = true)
+    (hb : b.all simple = true) (hq : quantBody b = false) :
+    regexClean (pre ++ '{' :: b ++ '}' :: rest) =
+      pre ++ '\\' :: '{' :: b ++ '\\' :: '}' :: regexClean rest :=
+  regexClean_non_quantifier_braces pre b rest hpre hb hq
+
+theorem C04_cleanup_escapes_other_braces_simple_context (pre b suf : List Char)
+    (hpre : pre.all simple = true) (hb : b.all simple = true) (hq : quantBody b = false)
+    (hsuf : suf.all simple = true) :
+    regexClean (pre ++ '{' :: b ++ '}' :: suf) = pre ++ '\\' :: '{' :: b ++ '\\' :: '}' :: suf :=
+  regexClean_non_quantifier_braces_simple pre b suf hpre hb hq hsuf
+
+/-- the hypothesis `quantBody b = false` is exactly "pass 2.1's regex does not match after the `{`" -/
+theorem C04_not_quantifier_iff (b rest : List Char) (hb : b.all simple = true) :
+    matchQuant (b ++ '}' :: rest) = none ↔ quantBody b = false :=
+  matchQuant_none_iff b rest hb
+
+/-- `quantBody` read out: a non-empty number, then nothing or a comma and a possibly empty number -/
+theorem C04_quantBody_iff (q : List Char) :
+    quantBody q = true ↔
+      ∃ d1 tail, q = d1 ++ tail ∧ d1 ≠ [] ∧ d1.all isDigit = true ∧ quantTail tail = true :=
+  quantBody_iff q
+
+/-- special cases of "not a quantifier": `{}`, a first character that is not a digit (`{x…}`), and
+in particular a leading comma (`{,3}`) -/
+theorem C04_not_quantifier_cases :
+    quantBody [] = false ∧ (∀ c r, isDigit c = false → quantBody (c :: r) = false) ∧
+      (∀ d, quantBody (',' :: d) = false) :=
+  quantBody_false_cases
+
+/-- **any number of brace pairs**: for every expression that is a sequence of simple characters and
+brace pairs around simple text, the compiled text is the same sequence with exactly the brace pairs
+that are not quantifiers escaped -/
+theorem C04_cleanup_braces_all (ps : List Piece) (h : ps.all Piece.ok = true) :
+    regexClean (ps.flatMap Piece.text) = ps.flatMap Piece.cleaned :=
+  regexClean_pieces ps h
+
 /-! ## Non-vacuity -/
 
 example : IsLine ['a', 'b', '\n'] := by decide
@@ -187,5 +254,25 @@ example : plain ['a', '|', 'b', '\\', '.', '(', '?', ':', 'c', ')', '*'] = true 
 example : plain ['a', '\\', '_'] = false := by decide
 example : regexClean ['a', '{', '3', '}', '{', 'x', '}'] = ['a', '{', '3', '}', '\\', '{', 'x', '\\', '}'] := by decide
 example : wildMatch ['a', '*', '*', '?'] ['a', 'x', 'y'] = some true := by decide
+
+-- `a{12,}b`, `a{12,}` followed by something that is not simple, `x{3}{,4}`
+example : regexClean ['a', '{', '1', '2', ',', '}', 'b'] = ['a', '{', '1', '2', ',', '}', 'b'] :=
+  C04_cleanup_keeps_quantifiers_simple_context ['a'] ['1', '2'] [','] ['b'] (by decide) (by decide)
+    (by decide) (by decide) (by decide)
+example : regexClean ['a', '{', '1', '2', ',', '3', '}', '[', 'a', ']', ']'] =
+    ['a', '{', '1', '2', ',', '3', '}'] ++ regexClean ['[', 'a', ']', ']'] :=
+  C04_cleanup_keeps_quantifiers ['a'] ['1', '2'] [',', '3'] ['[', 'a', ']', ']'] (by decide) (by decide)
+    (by decide) (by decide)
+example : regexClean ['a', '{', ',', '3', '}', 'b'] = ['a', '\\', '{', ',', '3', '\\', '}', 'b'] :=
+  C04_cleanup_escapes_other_braces_simple_context ['a'] [',', '3'] ['b'] (by decide)
+    (by decide) (C04_not_quantifier_cases.2.2 ['3']) (by decide)
+example : regexClean ['a', '{', '}', '{', '2', '}'] = ['a', '\\', '{', '\\', '}'] ++ regexClean ['{', '2', '}'] :=
+  C04_cleanup_escapes_other_braces ['a'] [] ['{', '2', '}'] (by decide) (by decide) (by decide)
+example : regexClean ['x', '{', '3', '}', '{', 'n', '}', 'y', '{', '1', ',', '}'] =
+    ['x', '{', '3', '}', '\\', '{', 'n', '\\', '}', 'y', '{', '1', ',', '}'] :=
+  C04_cleanup_braces_all
+    [.chr 'x', .braces ['3'], .braces ['n'], .chr 'y', .braces ['1', ',']] (by decide)
+example : quantBody ['1', '2', ','] = true ∧ quantBody ['1', ',', ','] = false ∧
+    quantBody ['1', 'x'] = false ∧ simple '>' = true ∧ simple '<' = false := by decide
 
 end Scrut.Props.C04
